@@ -23,13 +23,14 @@ def scenarios(tier):
 
 
 def plan(tier, gen):
+    """(request budget, death budget, deviation bound) of a burst in generation `gen`."""
     if tier == 'quick':
-        return {1: (1, 1)}.get(gen, (1, 0))
-    return {1: (1, 2), 2: (1, 1)}.get(gen, (1, 0))
+        return {1: (1, 1, 2)}.get(gen, (1, 0, 1))
+    return {1: (1, 1, 2), 2: (1, 1, 1)}.get(gen, (1, 0, 1))
 
 
 def bound(tier, scn, gen=1):
-    return sum(plan(tier, gen))
+    return plan(tier, gen)[2]
 
 
 def alphabet(world):
@@ -56,7 +57,7 @@ def run(scn, ch):
                                 behaviours=pattern(scn.pat))])
 
     def budgets(g):
-        r, d = plan(tier, g)
+        r, d, _ = plan(tier, g)
         return {'req': r, 'die': d}
 
     def on_quiescent(world, res, gen, win):
